@@ -55,6 +55,8 @@ class ClientMetadataClaims(BaseClaims):
         """
         uris = self.get("redirect_uris")
         if uris:
+            if not isinstance(uris, list):
+                raise InvalidClaimError("redirect_uris")
             for uri in uris:
                 if not isinstance(uri, str) or not is_valid_url(
                     uri, fragments_allowed=False
